@@ -37,7 +37,7 @@ __all__ = ["get_children_of_type", "get_parent_of_type", "get_model", "get_metam
 T = TypeVar("T")
 
 
-def textx_isinstance(obj: Any, obj_cls: type[Any]) -> bool:
+def textx_isinstance(obj: Any, obj_cls: type[Any], _visited: Any = None) -> bool:
     """
     This function determines, if a textx object is an instance of a
      textx class.
@@ -59,8 +59,13 @@ def textx_isinstance(obj: Any, obj_cls: type[Any]) -> bool:
     ):
         return True
     if hasattr(obj_cls, "_tx_inh_by"):
+        # Recursive abstract rules (e.g. `Expr: Atom | '(' Expr ')';`) inherit
+        # from themselves. Visit each class only once.
+        if _visited is None:
+            _visited = set()
+        _visited.add(id(obj_cls))
         for cls in obj_cls._tx_inh_by:
-            if textx_isinstance(obj, cls):
+            if id(cls) not in _visited and textx_isinstance(obj, cls, _visited):
                 return True
     return False
 
